@@ -9,6 +9,7 @@ import (
 	"time"
 
 	"github.com/KevoDB/kevo/pkg/engine/interfaces"
+	"github.com/KevoDB/kevo/pkg/engine"
 	"github.com/KevoDB/kevo/pkg/transaction"
 	"github.com/KevoDB/kevo/pkg/verifhook"
 	pb "github.com/KevoDB/kevo/proto/kevo"
@@ -62,6 +63,14 @@ func runC17(c *core.Ctx, res *core.Result) {
 		}
 	}()
 	kind := c.Idx % 5
+	if c.Idx%20 == 11 {
+		c17BeginBurst(c, res, eng)
+		return
+	}
+	if c.Idx%20 == 16 {
+		c17OverlappingFinishers(c, res, eng)
+		return
+	}
 	feat := map[string]string{"scenario": []string{"protocol", "concurrent", "abandon", "begin_deadline", "failures"}[kind]}
 	leak := func(after string) bool {
 		if !lockProbe(eng, 10*time.Second) {
@@ -462,4 +471,126 @@ func runC17(c *core.Ctx, res *core.Result) {
 	if c.Idx < 5 {
 		res.Sample = map[string]interface{}{"case": c.Idx, "scenario": feat["scenario"], "detail": shorten(sig), "critical_steps": critical}
 	}
+}
+
+// c17BeginBurst: many clients begin read-only transactions through the registry at the same instant, round
+// after round. Every client must get its own handle; after all of them have finished (and every server-side
+// cleanup has run) nothing may hold the database lock.
+func c17BeginBurst(c *core.Ctx, res *core.Result, eng *engine.EngineFacade) {
+	r := c.Rand
+	feat := map[string]string{"scenario": "begin_burst"}
+	reg := transaction.NewRegistry()
+	rounds := 40
+	if c.Thorough {
+		rounds = 150
+	}
+	n := r.Range(16, 40)
+	for round := 0; round < rounds; round++ {
+		ids := make([]string, n)
+		errs := make([]error, n)
+		start := make(chan struct{})
+		var wg sync.WaitGroup
+		for i := 0; i < n; i++ {
+			wg.Add(1)
+			go func(i int) {
+				defer wg.Done()
+				ctx := context.WithValue(context.Background(), "peer", fmt.Sprintf("client-%d", i))
+				<-start
+				ids[i], errs[i] = reg.Begin(ctx, eng, true)
+			}(i)
+		}
+		close(start)
+		wg.Wait()
+		seen := map[string]int{}
+		for i, id := range ids {
+			if errs[i] != nil {
+				res.Violate("begin_failed", fmt.Sprintf("round %d: a read-only Begin failed: %v", round, errs[i]), feat)
+				return
+			}
+			if j, dup := seen[id]; dup {
+				res.Violate("transaction_handle_shared", fmt.Sprintf("round %d: clients %d and %d, beginning read-only transactions at the same instant, both received the handle %s", round, j, i, id), feat)
+				return
+			}
+			seen[id] = i
+		}
+		for _, id := range ids {
+			if tx, ok := reg.Get(id); ok {
+				tx.Commit()
+			}
+			reg.Remove(id)
+		}
+		res.Count("simultaneous_begins", int64(n))
+	}
+	reg.(*transaction.RegistryImpl).CleanupStaleTransactions()
+	reg.GracefulShutdown(context.Background())
+	if !lockProbe(eng, 10*time.Second) {
+		res.Violate("lock_leaked", fmt.Sprintf("after %d rounds of %d simultaneous read-only begins, all finished, and a registry shutdown, a fresh read-write transaction could not begin within 10s", rounds, n), feat)
+		return
+	}
+	res.Count("lock_probes", 1)
+	res.Count("critical_steps", int64(rounds))
+	res.Sig = core.Sig("burst", n, rounds)
+	res.Nontrivial = true
+}
+
+// c17OverlappingFinishers: two finishing calls on one transaction that overlap in time - a client's commit
+// racing the server's rollback of the same transaction (sweep, connection cleanup, shutdown), or a retried
+// commit. They are made to queue up behind an operation of the same transaction that is still in flight (a
+// put of a multi-megabyte value holds the transaction's mutex while it copies). Exactly one may take effect.
+func c17OverlappingFinishers(c *core.Ctx, res *core.Result, eng *engine.EngineFacade) {
+	r := c.Rand
+	feat := map[string]string{"scenario": "overlapping_finishers"}
+	rounds := 6
+	if c.Thorough {
+		rounds = 12
+	}
+	big := make([]byte, 6<<20)
+	for round := 0; round < rounds; round++ {
+		tx, err := eng.BeginTransaction(false)
+		if err != nil {
+			res.Violate("begin_failed", err.Error(), feat)
+			return
+		}
+		k := []byte(fmt.Sprintf("of%02d", round))
+		tx.Put(k, []byte("small"))
+		var wg sync.WaitGroup
+		wg.Add(1)
+		go func() { defer wg.Done(); tx.Put([]byte("of-big"), big) }()
+		time.Sleep(time.Duration(r.Range(50, 400)) * time.Microsecond)
+		second := []string{"rollback", "commit"}[r.Intn(2)]
+		var e1, e2 error
+		wg.Add(2)
+		go func() { defer wg.Done(); e1 = tx.Commit() }()
+		go func() {
+			defer wg.Done()
+			if second == "commit" {
+				e2 = tx.Commit()
+			} else {
+				e2 = tx.Rollback()
+			}
+		}()
+		wg.Wait()
+		res.Count("overlapping_finish_pairs", 1)
+		_, gerr := eng.Get(k)
+		present := gerr == nil
+		switch {
+		case e1 == nil && e2 == nil:
+			res.Violate("second_finish_accepted", fmt.Sprintf("round %d: Commit and %s on one transaction overlapped (both queued behind an in-flight Put of the same transaction) and BOTH returned nil; the transaction's key is present=%v", round, second, present), feat)
+			return
+		case e1 == nil && !present:
+			res.Violate("commit_lost", fmt.Sprintf("round %d: Commit returned nil (the overlapping %s returned %v) but the transaction's key is absent", round, second, e2), feat)
+			return
+		case e1 != nil && second == "rollback" && e2 == nil && present:
+			res.Violate("abandoned_tx_left_trace", fmt.Sprintf("round %d: Rollback returned nil, the overlapping Commit returned %v, yet the transaction's key is present", round, e1), feat)
+			return
+		}
+	}
+	if !lockProbe(eng, 10*time.Second) {
+		res.Violate("lock_leaked", "after overlapping finishing calls a fresh read-write transaction could not begin within 10s", feat)
+		return
+	}
+	res.Count("lock_probes", 1)
+	res.Count("critical_steps", int64(rounds))
+	res.Sig = core.Sig("ofin", rounds)
+	res.Nontrivial = true
 }
